@@ -909,6 +909,15 @@ fn option_menu() -> Vec<Opts> {
         o.rustfmt = i % 3 == 0;
         v.push(o);
     }
+    // the validator with fewer capabilities: the same shader is accepted by one call and
+    // rejected by the next
+    for i in 0..6 {
+        let mut o = Opts::random(&mut rng);
+        o.validate = true;
+        o.caps = 1 + (i % 2) as u8;
+        o.rustfmt = i == 0;
+        v.push(o);
+    }
     v
 }
 
@@ -942,7 +951,27 @@ pub fn gen_plan(rng: &mut Rng) -> RunPlan {
     let pool_size = if long { rng.usize(18, 48) } else { rng.usize(2, 8) };
     let mut pool: Vec<Job> = Vec::new();
     while pool.len() < pool_size {
-        let shader = match rng.below(22) {
+        let shader = match rng.below(23) {
+            22 => {
+                // the same shader validated with all and with few capabilities, side by side
+                let shader = if rng.bool() {
+                    ShaderRef::Repo { path: "example/src/shader.wgsl".to_string() }
+                } else {
+                    ShaderRef::Gen { seed: rng.below(48), scale: rng.range(1, 3) as u32 }
+                };
+                let base = *rng.pick(&menu);
+                pool.push(Job {
+                    shader: shader.clone(),
+                    include_path: None,
+                    options: Opts { validate: true, caps: 0, ..base },
+                });
+                pool.push(Job {
+                    shader,
+                    include_path: None,
+                    options: Opts { validate: true, caps: 1 + rng.below(2) as u8, ..base },
+                });
+                continue;
+            }
             20..=21 => {
                 // a litter of siblings: same declarations, names and sizes, different leaf types
                 let seed = rng.below(40);
@@ -1699,37 +1728,59 @@ fn run_batch(scratch: &Scratch, golden: &Golden, seed: u64, n: u64) -> Result<Ta
                             // those files present. If the answer changes, the file is an input.
                             let plantable = |p: &Vec<String>| p.iter().any(|f| f.starts_with("$RUN/"));
                             if clean && (r.probed.iter().any(plantable) || r.probed_env.iter().any(|e| !e.is_empty())) {
-                                let mut planted = plan.clone();
-                                for (process, looked_for) in planted.processes.iter_mut().zip(&r.probed) {
-                                    process.plant_files = looked_for.iter().filter(|f| f.starts_with("$RUN/")).cloned().collect();
-                                }
-                                // ... and with the variables they asked for set
-                                for (process, asked_for) in planted.processes.iter_mut().zip(&r.probed_env) {
-                                    for name in asked_for {
-                                        if !process.env.iter().any(|(k, _)| k == name) {
-                                            process.env.push((name.clone(), "1".to_string()));
-                                        }
+                                // Second executions of the same plan: with the files present, with
+                                // the variables set to "1" (a switch), with the variables naming a
+                                // planted file (a path) next to the planted files. Separately: a
+                                // variable that is set may stop the code from looking for the file.
+                                let files_of = |looked_for: &Vec<String>| -> Vec<String> {
+                                    looked_for.iter().filter(|f| f.starts_with("$RUN/")).cloned().collect()
+                                };
+                                let mut variants: Vec<RunPlan> = Vec::new();
+                                if r.probed.iter().any(plantable) {
+                                    let mut v = plan.clone();
+                                    for (process, looked_for) in v.processes.iter_mut().zip(&r.probed) {
+                                        process.plant_files = files_of(looked_for);
                                     }
+                                    variants.push(v);
                                 }
-                                match execute(scratch, golden, &planted, false) {
-                                    Ok(r2) => {
-                                        local.stats.plans_rerun_with_planted_files += 1;
-                                        for mut d in r2.divergences {
-                                            d.detail = format!(
-                                                "with the files the calls looked for present ({:?}) and the variables they asked for set ({:?}): {}",
-                                                planted.processes.iter().flat_map(|p| p.plant_files.iter()).take(4).collect::<Vec<_>>(),
-                                                r.probed_env.iter().flatten().take(4).collect::<Vec<_>>(),
-                                                d.detail
-                                            );
-                                            if local.failures.len() < 16 {
-                                                local.failures.push((i, planted.clone(), d));
+                                if r.probed_env.iter().any(|e| !e.is_empty()) {
+                                    for as_path in [false, true] {
+                                        let mut v = plan.clone();
+                                        for ((process, asked_for), looked_for) in v.processes.iter_mut().zip(&r.probed_env).zip(&r.probed) {
+                                            if as_path {
+                                                process.plant_files = files_of(looked_for);
+                                                process.plant_files.push("$RUN/named-by-a-variable.toml".to_string());
+                                            }
+                                            for name in asked_for {
+                                                if !process.env.iter().any(|(k, _)| k == name) {
+                                                    let value = if as_path { "$RUN/named-by-a-variable.toml" } else { "1" };
+                                                    process.env.push((name.clone(), value.to_string()));
+                                                }
                                             }
                                         }
+                                        variants.push(v);
                                     }
-                                    Err(e) => {
-                                        *error.lock().unwrap() = Some(format!("run {i} (planted files): {e}"));
-                                        break;
+                                }
+                                let mut failed = false;
+                                for planted in variants {
+                                    match execute(scratch, golden, &planted, false) {
+                                        Ok(r2) => {
+                                            local.stats.plans_rerun_with_planted_files += 1;
+                                            for d in r2.divergences {
+                                                if local.failures.len() < 16 {
+                                                    local.failures.push((i, planted.clone(), d));
+                                                }
+                                            }
+                                        }
+                                        Err(e) => {
+                                            *error.lock().unwrap() = Some(format!("run {i} (planted files or variables): {e}"));
+                                            failed = true;
+                                            break;
+                                        }
                                     }
+                                }
+                                if failed {
+                                    break;
                                 }
                             }
                         }
